@@ -351,6 +351,16 @@ impl Region {
         trace!("{}: '{}' remove acquiring regions_mut", db, id);
         let mut regions = db.regions_mut();
         trace!("{}: '{}' remove got locks", db, id);
+        // Refuse before touching the layout: `regions.remove` performs the same check, but only
+        // after `layout.remove_region` has already taken the region out of the layout.
+        // Expected 3 here: caller's `self`, the regions table and the layout map.
+        let ref_count = Arc::strong_count(&self.0);
+        if ref_count > 3 {
+            return Err(Error::RegionStillReferenced {
+                id,
+                ref_count: ref_count - 1,
+            });
+        }
         layout.remove_region(&self)?;
         regions.remove(&self)?;
         Ok(())
